@@ -188,7 +188,7 @@ def run(spec):
             # atom count changes although the net number of exchanged particles does not
             neighbour = "swap-of-unequal-particles"
             s["atoms"] = {"kind": "molecules", "nmol": int(rng.integers(2, 4)), "molsize": 2, "framework": 0, "edge": 8.0, "seed": int(rng.integers(10**6)), "extras": ["momenta"]}
-            s["table"].append({"name": "sw", "move": {"t": "+", "parts": [{"t": "E", "bias": 0.0}, {"t": "E", "bias": 1.0}]}, "criteria": "random:0.7"})
+            s["table"].append({"name": "sw", "move": {"t": "+", "parts": [{"t": "D", "op": {"t": "Ball", "step": 0.2}}, {"t": "E", "bias": 0.0}, {"t": "E", "bias": 1.0}]}, "criteria": "random:0.7"})  # the displacement member makes it a plain composite
             s["table"].append({"name": "x", "move": {"t": "E", "bias": 0.8}, "criteria": "random:0.7"})
         elif driver == "GrandCanonical" and i % 2 == 0:
             neighbour = "exchange"
